@@ -120,7 +120,19 @@ def cases(tier, seed):
                 opts['processes'] = rng.randint(2, 4)
             if rng.random() < 0.3:
                 opts['verbose'] = rng.randint(1, 2)
-            out.append({'spec': spec, 'plan': plan, 'opts': opts})
+            # options of other features that wrap the run (tracing,
+            # profiling, gc settings) must not change how layers are handled
+            extra = []
+            r = rng.random()
+            if r < 0.1:
+                extra = ['--coverage', 'COVDIR']
+            elif r < 0.14:
+                extra = ['--gc', '0', '-G', 'DEBUG_STATS']
+            elif r < 0.18:
+                extra = ['--profile', 'cProfile', '--profile-directory',
+                         'ROOT']
+            out.append({'spec': spec, 'plan': plan, 'opts': opts,
+                        'extra': extra})
     return out
 
 
@@ -136,7 +148,9 @@ def run_case(case):
         with open(plan_path, 'w') as f:
             json.dump(plan, f)
         r = runcase.run_inproc(
-            ['--path', root] + vworld.opts_to_argv(opts),
+            ['--path', root] + vworld.opts_to_argv(opts) + [
+                {'COVDIR': os.path.join(root, 'cov-out'),
+                 'ROOT': root}.get(x, x) for x in case.get('extra') or []],
             os.path.join(root, 'world.json'),
             os.path.join(root, 'trace.jsonl'), plan=plan_path,
             purge=(spec['prefix'],))
